@@ -8,6 +8,7 @@ import (
 	"math/rand"
 	"os"
 	"strconv"
+	"sync"
 	"testing"
 )
 
@@ -31,9 +32,18 @@ type c11Out struct {
 	Tried    int      `json:"tried"`
 	Accepted []c11Acc `json:"accepted"`
 	Unstable [][]int  `json:"unstable"` // strings whose second evaluation (after all others) differs from the first
-	Pitch    [][]int  `json:"pitch"`  // NoteToPitch(n) bytes, n = 0..127
-	Octave   []int    `json:"octave"` // NoteToOctave(n)
+	Pitch    [][]int  `json:"pitch"`    // NoteToPitch(n) bytes, n = 0..127
+	Octave   []int    `json:"octave"`   // NoteToOctave(n)
 	Panics   []string `json:"panics"`
+	// Concurrent: answers that differ from the sequential ones when 16 goroutines convert different strings at the same time
+	Concurrent      []c11Conc `json:"concurrent"`
+	ConcurrentCalls int       `json:"concurrent_calls"`
+}
+
+type c11Conc struct {
+	S    []int `json:"s"`
+	Got  int   `json:"got"`  // -1 = rejected, -2 = panic
+	Want int   `json:"want"` // -1 = rejected
 }
 
 func bytesOf(s string) []int {
@@ -151,6 +161,66 @@ func verifC11(t *testing.T) {
 		again(string([]byte{c}))
 		for _, d := range alpha {
 			again(string([]byte{c, d}))
+		}
+	}
+	// the answer depends on the string only - also when other strings are being converted at the same moment (configurations are
+	// parsed from more than one goroutine): every accepted name, look-alikes that must be rejected and every string of length <= 2
+	// over the alphabet, from 16 goroutines at once, each walking the list from another offset; compared with the sequential answers
+	{
+		var pool []string
+		for s := range first {
+			pool = append(pool, s)
+		}
+		for _, s := range []string{"x0", "h4", "H1", "e#3", "b#2", "E#-1", "q9", "c", "c#", "#1", "cb4", "z-1", "I0", "h#0", "y5", "r#7"} {
+			pool = append(pool, s, s, s, s)
+		}
+		for _, c := range alpha {
+			for _, d := range alpha {
+				pool = append(pool, string([]byte{c, d}))
+			}
+		}
+		const G = 16
+		res := make([][]c11Conc, G)
+		calls := make([]int, G)
+		var wg sync.WaitGroup
+		for g := 0; g < G; g++ {
+			wg.Add(1)
+			go func(g int) {
+				defer wg.Done()
+				one := func(s string) {
+					got := -1
+					func() {
+						defer func() {
+							if r := recover(); r != nil {
+								got = -2
+							}
+						}()
+						if n, err := StringToNote(s); err == nil {
+							got = int(n)
+						}
+					}()
+					calls[g]++
+					want := -1
+					if v, ok := first[s]; ok {
+						want = v
+					}
+					if got != want && len(res[g]) < 20 {
+						res[g] = append(res[g], c11Conc{bytesOf(s), got, want})
+					}
+				}
+				for round := 0; round < 12; round++ {
+					off := (g*977 + round*131) % len(pool)
+					for i := range pool {
+						one(pool[(off+i*(1+2*(g%4)))%len(pool)])
+					}
+				}
+			}(g)
+		}
+		wg.Wait()
+		out.Concurrent = []c11Conc{}
+		for g := 0; g < G; g++ {
+			out.Concurrent = append(out.Concurrent, res[g]...)
+			out.ConcurrentCalls += calls[g]
 		}
 	}
 	for n := 0; n < 128; n++ {
